@@ -17,6 +17,7 @@ def reset():
     _SQRT.clear()
     _POW.clear()
     _EXP.clear()
+    _ATOM_AX.clear()
 
 
 def declare_angle(mon, unit=1, mode='circle'):
@@ -108,6 +109,7 @@ def sqrt(x):
             return Q(Fr(rn, rd))
     k = _key(x)
     if k in _SQRT:
+        _re_emit(('sqrt', k))
         return _SQRT[k]
     if not x.is_real:
         raise NotImplementedError('complex sqrt: use csqrt atom explicitly')
@@ -130,10 +132,29 @@ def sqrt(x):
     aq = Q(a)
     CTX.axiom(a >= 0, 'sqrt atom >= 0')
     cond = (aq * aq - x).is_zero_conds()
-    for c in cond:
-        CTX.axiom(c, 'sqrt atom squared equals its argument')
+    _ATOM_AX[('sqrt', k)] = (list(cond), set())
+    _re_emit(('sqrt', k), 'sqrt atom squared equals its argument (asserted under the path condition of the path that takes the root)')
     _SQRT[k] = aq
     return aq
+
+
+# Defining equations of atoms are facts about the path that evaluates the atom (s^2 == x says x >= 0; a division-free equation presumes its denominators non-zero). Emitted unguarded
+# they would hold on EVERY later path of the same job and silently prune branches (x < 0, y == 0 ...) from the exploration. Under an Explorer they are therefore asserted as
+# (path condition => equation), once per path condition under which the atom is used; outside an exploration they are asserted as before.
+_ATOM_AX = {}
+
+
+def _re_emit(key, note=None):
+    if key not in _ATOM_AX:
+        return
+    conds, seen = _ATOM_AX[key]
+    pc = list(CTX.pc) if getattr(CTX, 'explorer', None) is not None else []
+    sig = tuple(c.get_id() for c in pc)
+    if sig in seen:
+        return
+    seen.add(sig)
+    for c in conds:
+        CTX.axiom(z3.Implies(z3.And(*pc), c) if pc else c, note if not seen - {sig} else None)
 
 
 def _SinAbs(mon, s):
@@ -184,6 +205,7 @@ def _root_atom(a, n):
     """a**(p/q) for a > 0: positive atom v with v^q == a^p"""
     k = ('root', _key(a), n)
     if k in _POW:
+        _re_emit(k)
         return _POW[k]
     v = CTX.new('root')
     vq = Q(v)
@@ -191,8 +213,8 @@ def _root_atom(a, n):
     p_, q_ = n.numerator, n.denominator
     lhs = power(vq, q_)
     rhs = power(a, p_)
-    for c in (lhs - rhs).is_zero_conds():
-        CTX.axiom(c, None)
+    _ATOM_AX[k] = (list((lhs - rhs).is_zero_conds()), set())
+    _re_emit(k)
     _POW[k] = vq
     return vq
 
